@@ -51,6 +51,7 @@ type phiCand struct {
 }
 
 type boundsProver struct {
+	transMemo map[*ssa.Function]*transparentInfo
 	resMemo  map[string]int
 	trueMemo map[*ssa.Function][]*cmpSummary
 	p        *Prog
@@ -251,6 +252,14 @@ func (fb *fnBounds) lenOf(v ssa.Value, at ssa.Instruction, d int) lin {
 	case *ssa.MakeSlice:
 		if l, ok := fb.linOf(t.Len, t, d+1); ok {
 			return l
+		}
+	case *ssa.Call:
+		if callee := t.Call.StaticCallee(); callee != nil && fb.bp.p.InModule(callee) {
+			if ti := fb.bp.transparent(callee); ti != nil && ti.retLen != nil {
+				if l, ok := fb.renameCallee(*ti.retLen, callee, t, false); ok {
+					return l
+				}
+			}
 		}
 	case *ssa.ChangeType:
 		return fb.lenOf(t.X, at, d+1)
@@ -920,6 +929,91 @@ func (fb *fnBounds) condConstraints(c ssa.Value, pol bool, at ssa.Instruction, d
 		}
 	}
 	return nil
+}
+
+// A transparent helper is a one-block method that only reads fields and/or bumps integer fields of its
+// receiver by a parameter or a constant (advance(n), rest(), peekByte()). It is treated as if inlined: a
+// call has exactly its field updates as effect, its string/slice result has the length its body says, and
+// the object invariants are neither checked at its exit nor assumed after a call to it (the caller's
+// own next boundary has to re-establish them).
+type transparentInfo struct {
+	updates []transUpdate
+	retLen  *lin // length of the (single) string/slice result over callee-relative variables
+}
+
+type transUpdate struct {
+	fk    fieldKey
+	delta lin // new - old, over callee parameter names / constants
+}
+
+func (bp *boundsProver) transparent(fn *ssa.Function) *transparentInfo {
+	if bp.transMemo == nil {
+		bp.transMemo = map[*ssa.Function]*transparentInfo{}
+	}
+	if ti, ok := bp.transMemo[fn]; ok {
+		return ti
+	}
+	bp.transMemo[fn] = nil
+	if fn == nil || len(fn.Blocks) != 1 || len(fn.Params) == 0 || fn.Signature.Recv() == nil {
+		return nil
+	}
+	if _, ok := fn.Params[0].Type().Underlying().(*types.Pointer); !ok {
+		return nil
+	}
+	b := fn.Blocks[0]
+	ti := &transparentInfo{}
+	cfb := bp.forFn(fn)
+	var stores []*ssa.Store
+	for _, in := range b.Instrs {
+		switch t := in.(type) {
+		case *ssa.FieldAddr, *ssa.UnOp, *ssa.BinOp, *ssa.Slice, *ssa.Lookup, *ssa.Index, *ssa.IndexAddr, *ssa.Return, *ssa.DebugRef, *ssa.Convert, *ssa.ChangeType:
+		case *ssa.Call:
+			if bi, ok := t.Call.Value.(*ssa.Builtin); !ok || (bi.Name() != "len" && bi.Name() != "cap") {
+				return nil
+			}
+		case *ssa.Store:
+			fa, ok := t.Addr.(*ssa.FieldAddr)
+			if !ok || fa.X != ssa.Value(fn.Params[0]) || !isIntType(t.Val.Type()) {
+				return nil
+			}
+			stores = append(stores, t)
+		default:
+			return nil
+		}
+	}
+	for _, st := range stores {
+		fa := st.Addr.(*ssa.FieldAddr)
+		fk := fieldOf(fa)
+		nv, ok := cfb.linOf(st.Val, st, 0)
+		if !ok {
+			return nil
+		}
+		old := linVar(fmt.Sprintf("mem(%s.%s@entry)", ssaName(fn.Params[0]), fk.Field))
+		d := nv.sub(old)
+		// delta over parameters and constants only
+		for v := range d.c {
+			isPrm := false
+			for _, prm := range fn.Params[1:] {
+				if v == ssaName(prm) {
+					isPrm = true
+				}
+			}
+			if !isPrm {
+				return nil
+			}
+		}
+		ti.updates = append(ti.updates, transUpdate{fk, d})
+	}
+	ret := b.Instrs[len(b.Instrs)-1].(*ssa.Return)
+	if len(ret.Results) == 1 && (isStringType(ret.Results[0].Type()) || kindOf(ret.Results[0].Type()) == KSlice) && len(stores) == 0 {
+		l := cfb.lenOf(ret.Results[0], ret, 0)
+		ti.retLen = &l
+	}
+	if len(ti.updates) == 0 && ti.retLen == nil {
+		// a pure getter of a scalar (peekByte): nothing to summarise, but still transparent
+	}
+	bp.transMemo[fn] = ti
+	return ti
 }
 
 // dynTargets: the in-module functions a dynamic call can reach according to the call graph, with
